@@ -184,7 +184,10 @@ def make_estimator(rng, run, vd, ncomp):
     return est, label
 
 
-def make_cv(rng, run, vd, ds, allow_default=True, max_splits=6):
+RS_KINDS = ("int", "None", "RandomState")
+
+
+def make_cv(rng, run, vd, ds, allow_default=True, max_splits=6, rs_kind_wanted=None):
     """-> (factory of RecordingCV | None, label, n_splits). Every test set has >= 3 rows, every train set >= 12."""
     from sklearn.model_selection import KFold, ShuffleSplit
 
@@ -193,6 +196,18 @@ def make_cv(rng, run, vd, ds, allow_default=True, max_splits=6):
         kind = str(rng.choice(["kfold", "shuffle", "blockkfold", "blockshuffle", "thin", "default"]))
         seed = int(rng.integers(0, 2 ** 31 - 1))
         thin = 0.0
+        rs_kind = RS_KINDS[int(rng.integers(0, 3))] if rs_kind_wanted is None else rs_kind_wanted
+        randomised = True
+
+        def rs(seed=seed, rs_kind=rs_kind):
+            """The random_state of the cross-validator, equally seeded on every call (so that a replay is well defined)."""
+            if rs_kind == "int":
+                return seed
+            if rs_kind == "RandomState":
+                return np.random.RandomState(seed % (2 ** 32))
+            np.random.seed(seed % (2 ** 32))  # None: numpy's global generator, re-seeded right before the cross-validator is used
+            return None
+
         if kind == "default":
             if not allow_default or rng.random() < 0.5:
                 continue
@@ -200,13 +215,14 @@ def make_cv(rng, run, vd, ds, allow_default=True, max_splits=6):
             return (lambda how=None: None), "None", 5
         if kind in ("kfold", "thin"):
             k, shuffle = int(rng.integers(2, max_splits + 1)), bool(rng.random() < 0.7)
-            make = lambda k=k, shuffle=shuffle: KFold(n_splits=k, shuffle=shuffle, random_state=seed if shuffle else None)  # noqa: E731
+            make = lambda k=k, shuffle=shuffle, rs=rs: KFold(n_splits=k, shuffle=shuffle, random_state=rs() if shuffle else None)  # noqa: E731
+            randomised = shuffle
             label = "KFold(%d,shuffle=%s)" % (k, shuffle)
             if kind == "thin":
                 thin, label = 0.25, "Thinned" + label
         elif kind == "shuffle":
             k, ts = int(rng.integers(2, max_splits)), float(rng.uniform(0.1, 0.5))
-            make = lambda k=k, ts=ts: ShuffleSplit(n_splits=k, test_size=ts, random_state=seed)  # noqa: E731
+            make = lambda k=k, ts=ts, rs=rs: ShuffleSplit(n_splits=k, test_size=ts, random_state=rs())  # noqa: E731
             label = "ShuffleSplit(%d,%.2f)" % (k, ts)
         else:
             if rng.random() < 0.5:
@@ -217,12 +233,13 @@ def make_cv(rng, run, vd, ds, allow_default=True, max_splits=6):
             if kind == "blockkfold":
                 k = int(rng.integers(2, 5))
                 shuffle, balance = bool(rng.random() < 0.5), bool(rng.random() < 0.7)
-                make = lambda k=k, kw=kw, shuffle=shuffle, balance=balance: vd.BlockKFold(  # noqa: E731
-                    n_splits=k, shuffle=shuffle, random_state=seed if shuffle else None, balance=balance, **kw)
+                make = lambda k=k, kw=kw, shuffle=shuffle, balance=balance, rs=rs: vd.BlockKFold(  # noqa: E731
+                    n_splits=k, shuffle=shuffle, random_state=rs() if shuffle else None, balance=balance, **kw)
+                randomised = shuffle
                 label = "BlockKFold(%d,%s)" % (k, sorted(kw)[0])
             else:
                 k, ts = int(rng.integers(2, 5)), float(rng.uniform(0.2, 0.5))
-                make = lambda k=k, kw=kw, ts=ts: vd.BlockShuffleSplit(n_splits=k, test_size=ts, random_state=seed, **kw)  # noqa: E731
+                make = lambda k=k, kw=kw, ts=ts, rs=rs: vd.BlockShuffleSplit(n_splits=k, test_size=ts, random_state=rs(), **kw)  # noqa: E731
                 label = "BlockShuffleSplit(%d,%s)" % (k, sorted(kw)[0])
         try:
             with warnings.catch_warnings():
@@ -234,7 +251,9 @@ def make_cv(rng, run, vd, ds, allow_default=True, max_splits=6):
         if len(splits) < 2 or any(len(te) < 3 or len(tr) < 12 for tr, te in splits):
             continue
         run.count("class:cv:" + label.split("(")[0])
-        hows = ["proxy", "proxy", "proxy_list"] + ([] if thin else ["bare"])
+        # a bare instance can only be judged if a replay gives the same splits: int seed, or no shuffling at all
+        hows = ["proxy", "proxy", "proxy_list"] + ([] if thin or (randomised and rs_kind != "int") else ["bare"])
+        run.count("class:random_state:cv:" + (rs_kind if randomised else "not_randomised"))
         default_how = str(rng.choice(hows))
 
         def factory(how=None, make=make, label=label, thin=thin, default_how=default_how, hows=tuple(hows)):
@@ -366,7 +385,7 @@ def same_splits(a, b):
 # --------------------------------------------------------------------------
 # streams
 # --------------------------------------------------------------------------
-def case_cv(run, rng, vd, schedules=None, client=None):
+def case_cv(run, rng, vd, schedules=None, client=None, index=None):
     ds, coords, data, weights, info = make_dataset(rng, run)
     S.register(ds)
     est, est_label = make_estimator(rng, run, vd, len(ds.data))
@@ -376,7 +395,7 @@ def case_cv(run, rng, vd, schedules=None, client=None):
         if prefit:
             run.count("class:estimator_already_fitted")
             est.fit(coords, data, weights)
-        factory, cv_label, n_splits = make_cv(rng, run, vd, ds)
+        factory, cv_label, n_splits = make_cv(rng, run, vd, ds, rs_kind_wanted=None if index is None else RS_KINDS[index % 3])
         scoring = pick_scoring(rng, run)
         cv1 = factory()
         serial = vd.cross_val_score(est, coords, data, weights=weights, cv=cv1, scoring=scoring)
@@ -598,7 +617,24 @@ def case_tts(run, rng, vd, index=0):
         combo = (index * 6 + j) % 14
         blocked, mode = bool(combo % 2), SIZE_MODES[combo // 2]
         ds, coords, data, weights, info = make_dataset(rng, run)
-        kwargs = {"random_state": int(rng.integers(0, 2 ** 31 - 1))}
+        seed = int(rng.integers(0, 2 ** 32 - 1))
+        rs_kind = RS_KINDS[(index * 6 + j) % 3]  # coprime with the 14 size/mode combinations: 42 consecutive calls see every pair
+        run.count("class:random_state:tts:%s:%s" % (rs_kind, "blocked" if blocked else "plain"))
+
+        def with_random_state(kw, seed=seed, rs_kind=rs_kind):
+            """The keyword arguments with an equally seeded random_state of the wanted kind (int | RandomState instance | None = global generator)."""
+            kw = dict(kw)
+            if rs_kind == "int":
+                kw["random_state"] = seed
+            elif rs_kind == "RandomState":
+                kw["random_state"] = np.random.RandomState(seed)
+            else:
+                np.random.seed(seed)
+                if rng.random() < 0.5:
+                    kw["random_state"] = None  # else: left out altogether
+            return kw
+
+        kwargs = {}
         units = ds.size
         if blocked:
             for _ in range(20):
@@ -632,7 +668,7 @@ def case_tts(run, rng, vd, index=0):
         try:
             with warnings.catch_warnings():
                 warnings.simplefilter("ignore")
-                train, test = vd.train_test_split(coords, data, weights, **kwargs)
+                train, test = vd.train_test_split(coords, data, weights, **with_random_state(kwargs))
         except ValueError as exc:
             if "test_size" in str(exc) or "train_size" in str(exc) or "n_samples" in str(exc) or "empty" in str(exc):
                 run.count("refused:train_test_split:" + str(exc)[:40])
@@ -646,7 +682,7 @@ def case_tts(run, rng, vd, index=0):
             run.count("class:weights_spelling:tuple_of_None")
         with warnings.catch_warnings():
             warnings.simplefilter("ignore")
-            train2, test2 = vd.train_test_split(coords, data, alt_weights, **other)
+            train2, test2 = vd.train_test_split(coords, data, alt_weights, **with_random_state(other))  # replayed with an equally seeded generator
         with M.GL:
             run.evaluated("tts_equivalent_spellings_agree")
             rows = [ds.rows(part[0]) for part in (train, test, train2, test2)]
@@ -654,7 +690,7 @@ def case_tts(run, rng, vd, index=0):
                 run.violation("tts_equivalent_spellings_agree", "train_test_split(%r) and train_test_split(%r) return different splits"
                               % ({k: v for k, v in kwargs.items()}, {k: v for k, v in other.items()}),
                               {"coordinates": list(ds.coordinates), "first_test": rows[1], "second_test": rows[3]}, key="tts-spellings")
-    run.sample("train_test_split", {"dataset": info, "kwargs": kwargs, "respelled": {k: repr(v) for k, v in other.items()},
+    run.sample("train_test_split", {"dataset": info, "kwargs": kwargs, "random_state_kind": rs_kind, "respelled": {k: repr(v) for k, v in other.items()},
                                     "train_rows": np.sort(ds.rows(train[0])) if ds.rows(train[0]) is not None else None,
                                     "test_rows": np.sort(ds.rows(test[0])) if ds.rows(test[0]) is not None else None})
 
@@ -745,7 +781,8 @@ def case_splinecv(run, rng, vd, client=None, index=None):
     if any(isinstance(d, (int, np.integer)) and not isinstance(d, bool) for d in dampings):
         run.count("class:splinecv:dampings_of_integer_type")
     mindists = None if plain_mindists is None else spell_numbers(plain_mindists, rng, run, "mindists")
-    factory, cv_label, n_splits = make_cv(rng, run, vd, ds, allow_default=client is None, max_splits=5)
+    factory, cv_label, n_splits = make_cv(rng, run, vd, ds, allow_default=client is None, max_splits=5,
+                                          rs_kind_wanted=None if index is None else RS_KINDS[(index // 4) % 3])
     n_cand = len(dampings) * (1 if mindists is None else len(mindists))
     run.count("class:splinecv:candidates:%d" % n_cand)
     common = {"dampings": dampings, "mindists": mindists, "force_coords": force_coords, "engine": engine}
